@@ -17,7 +17,7 @@ LEVEL = "exploration"
 RULE = (
     "each listed class of ill-posed input is embedded at a random place of an otherwise valid generated problem (any block, dense / "
     "sparse / sympy values, later order, second parameter, any designation): offdiag_h0 (H_0 couples two blocks; numeric and provably "
-    "non-zero symbolic), shared_energy (two coupled blocks share an unperturbed energy exactly, or within np.isclose for floats; "
+    "non-zero symbolic), shared_energy (two coupled blocks share an unperturbed energy exactly, or within the library's window atol + 1e-5 relative for floats; "
     "coupled at first order or only at second order through a third block), degenerate_elimination (mask selects a pair of equal "
     "energies), not_orthonormal (eigenvectors with L^dagger R != 1), asymmetric_mask (Hermitian mode), nonhermitian_symbolic "
     "(Hermitian mode, sympy term not Hermitian, at first or second order / second parameter), exclusive_options. Oracle: a "
@@ -177,7 +177,9 @@ def run_case(spec):
         Ei = tf[z][i, i]
         # make every state of level E_j in block b take the value E_i (keeps degeneracies inside b consistent)
         Ej = tf[z][j, j]
-        delta = 0.5 * (1e-8 + 1e-5 * abs(Ei)) if close else 0.0  # inside np.isclose's default window
+        # inside the library's window "equal within atol (default 1e-12) + 1e-5 relative" (np.isclose with the solver's
+        # atol since fix F19; before it the absolute part was numpy's default 1e-8, which is not an `atol` the user chose)
+        delta = 0.5 * (1e-12 + 1e-5 * abs(Ei)) if close else 0.0
         for k in range(off[b], off[b + 1]):
             if tf[z][k, k] == Ej:
                 tf[z][k, k] = Ei + delta
@@ -357,6 +359,27 @@ def run_case(spec):
         if set(syms) - Mgood.free_symbols or set(syms) - Mbad.free_symbols:
             return dict(verdict="inconclusive", detail="a perturbation vanishes identically (symbol absent from the matrix)")
 
+        if rng.random() < 0.4:
+            # second-quantised twin: the same c-number matrices on top of a boson mode, H_0 -> H_0 + omega N_a on every
+            # diagonal entry (all energy differences unchanged); the non-Hermitian coefficient itself is operator free
+            from sympy.physics.quantum import Dagger as _Dg
+            from sympy.physics.quantum.boson import BosonOp as _Bos
+
+            a_ = _Bos("a")
+            dress = sympy.Rational(7, 3) * _Dg(a_) * a_ * sympy.eye(p.N)
+            try:
+                import warnings as _w
+
+                with _w.catch_warnings():
+                    _w.simplefilter("ignore")
+                    outs = block_diagonalize(Mgood + dress, symbols=syms, **good.kwargs)
+                    outs[0][(0, 0) + n_bad]
+                Mgood, Mbad = Mgood + dress, Mbad + dress
+                variant += " on a boson mode"
+                counters["nonhermitian_symbolic_second_quantised"] += 1
+            except Exception:  # noqa: BLE001
+                counters["second_quantised_twin_not_supported"] += 1  # (masks / degenerate levels): keep the plain matrices
+
         def go():
             outs = block_diagonalize(Mbad, symbols=syms, **q.kwargs)
             outs[0][(0, 0) + n_bad]
@@ -406,7 +429,7 @@ def finalize(c, tier, evaluations, distinct):
     for cls in CLASSES:
         if c.get(f"class_{cls}", 0) < 30:
             reasons.append(f"class {cls} exercised only {c.get('class_' + cls, 0)} times")
-    for k, v in dict(rejected=400, negative_controls=500, vtype_sympy=50, vtype_sparse=50).items():
+    for k, v in dict(rejected=400, negative_controls=500, vtype_sympy=50, vtype_sparse=50, nonhermitian_symbolic_second_quantised=10).items():
         if c.get(k, 0) < v:
             reasons.append(f"{k} observed only {c.get(k, 0)} (< {v})")
     return reasons
